@@ -1,10 +1,10 @@
 (* C12 at the level of the SOURCE (method: Props/C11Src.v): BIP85DeterministicEntropy.byte_count_from_word_count, the
    static method that maps the allowed word counts to entropy widths (12/15/18/21/24 -> 16/20/24/28/32) and refuses every
-   other count; and two of the five applications, hex and bip39_mnemonic, with the instance method entropy(path) as an
+   other count; and three of the five applications, hex, pwd and bip39_mnemonic, with the instance method entropy(path) as an
    external primitive: for every parameter and index the source hands entropy() exactly the model's path string
    m/83696968'/128169'/n'/i' resp. m/83696968'/39'/0'/wc'/i' (str.format), refuses n outside 16..64 / a word count outside
-   the five, and returns the hex of the first n bytes resp. the BIP39 sentence (source of mnemonic_from_entropy) of the
-   first byte_count(wc) bytes.  (entropy(), wif, xprv and pwd work on node objects / ecdsa / base64: outside the fragment;
+   the five, and returns the hex of the first n bytes (pwd: the first n characters of the base64 text, 20..86) resp. the BIP39 sentence (source of mnemonic_from_entropy) of the
+   first byte_count(wc) bytes.  (entropy(), wif and xprv work on node objects / ecdsa: outside the fragment;
    the path parser those strings go through is covered by Props/C17Src.v.) *)
 From BHW Require Import Lib.Base Lib.ListAux Model.Helper Model.Bip32M Model.Bip39M Model.Bip85M Spec.Curve Py.Interp Py.Tactics Proofs.PyBip85.
 From BHWGen Require Import Consts PyAst.
@@ -66,6 +66,10 @@ Theorem C12_source_hex_is_model : forall fuel self n i,
   agrees (sem_bip85__BIP85DeterministicEntropy__hex ext fuel [self; VInt n; VInt i]) (rmap VStr (hex85 C hmac512 master n i)).
 Proof. intros. exact (hex_sem (entropy C hmac512 master) entropy_wf ext ext_entropy fuel self n i). Qed.
 
+Theorem C12_source_pwd_is_model : forall fuel self n i,
+  agrees (sem_bip85__BIP85DeterministicEntropy__pwd ext fuel [self; VInt n; VInt i]) (rmap VStr (pwd85 C hmac512 master n i)).
+Proof. intros. exact (pwd_sem (entropy C hmac512 master) entropy_wf ext ext_entropy fuel self n i). Qed.
+
 Theorem C12_source_mnemonic_is_model : forall fuel self wc i,
   agrees (sem_bip85__BIP85DeterministicEntropy__bip39_mnemonic ext fuel [self; VInt wc; VInt i])
          (rmap VStr (bip39_mnemonic C hmac512 sha256 master wc i)).
@@ -77,12 +81,13 @@ End C12Apps.
 Theorem C12_source_translated :
   forallb (fun q => existsb (String.eqb q) translated)
     ["bip85.BIP85DeterministicEntropy.byte_count_from_word_count"; "bip85.BIP85DeterministicEntropy.hex";
-     "bip85.BIP85DeterministicEntropy.bip39_mnemonic"; "bip39.mnemonic_from_entropy"] = true /\
+     "bip85.BIP85DeterministicEntropy.bip39_mnemonic"; "bip85.BIP85DeterministicEntropy.pwd"; "bip39.mnemonic_from_entropy"] = true /\
   extern_ok_bip85__BIP85DeterministicEntropy__entropy = true.
 Proof. split; reflexivity. Qed.
 
 Print Assumptions C12_source_hex_is_model.
 Print Assumptions C12_source_mnemonic_is_model.
+Print Assumptions C12_source_pwd_is_model.
 Print Assumptions C12_source_byte_count_is_model.
 Print Assumptions C12_source_byte_count_table.
 Print Assumptions C12_source_translated.
